@@ -453,6 +453,22 @@ class Env:
         o.secs = time.time() - t0
         return o
 
+    def finite(self, prop, name, arr):
+        """no entry is the undefined value (inf / nan of the float code): every division, root and logarithm on the way to
+        this output is defined for all admissible inputs"""
+        if self.sym:
+            A_ = np.asarray(arr, dtype=object)
+            bad = [list(i) for i in (np.ndindex(*A_.shape) if A_.shape else [()]) if S.has_undef(A_[i])]
+            o = self._new(prop, name, "finiteness")
+            o.n = int(A_.size) if A_.shape else 1
+            o.ok = o.n - len(bad)
+            for i in bad[:5]:
+                o.refuted.append(dict(entry=i, witness=dict(self.pins), value=None, reason="undefined value (%s) reaches the output" % ", ".join(sorted(set(S.UNDEF_REASONS)))))
+            return o
+        A_ = np.asarray(arr, dtype=float)
+        self.numeric[name] = (np.where(np.isfinite(A_), 0.0, 1.0), np.ones(A_.shape), np.where(np.isfinite(A_), A_, 0.0), np.zeros(A_.shape))
+        return None
+
     def note(self, s):
         self.notes.append(s)
 
